@@ -439,14 +439,64 @@ def run_case(c):
     return run_rt(c) if c["part"] == "rt" else run_mal(c)
 
 
+# ------------------------------------------------------------------ fresh interpreters: key handling does not depend on which modules were imported
+FRESH_IMPORTS = {"jwk-only": "from joserfc import jwk", "jwe-then-jwk": "from joserfc import jwe\nfrom joserfc import jwk", "jwk-then-jws": "from joserfc import jwk\nfrom joserfc import jws",
+                 "keys-module": "from joserfc.jwk import ECKey, OKPKey, RSAKey, OctKey, JWKRegistry, KeySet"}
+FRESH_SCRIPT = r'''
+import sys, json, warnings
+warnings.simplefilter("ignore")
+sys.path.insert(0, sys.argv[1] + "/src")
+%s
+from joserfc.jwk import ECKey, OKPKey, RSAKey, OctKey, JWKRegistry, KeySet
+out = {}
+for name, (cls, jwk_, pem) in json.loads(sys.argv[2]).items():
+    cls = {"EC": ECKey, "OKP": OKPKey, "RSA": RSAKey, "oct": OctKey}[cls]
+    try:
+        a = cls.import_key(jwk_).as_dict(private=True)
+        b = JWKRegistry.import_key(jwk_).as_dict(private=True)
+        c = cls.import_key(pem).as_dict(private=True) if pem else a
+        g = cls.generate_key(jwk_.get("crv") or (1024 if cls is RSAKey else 128)).as_dict(private=True)
+        ks = KeySet.import_key_set({"keys": [jwk_]}).as_dict(private=True)["keys"][0]
+        bad = [w for w, d in (("jwk", a), ("registry", b), ("pem", c), ("key set", ks)) if any(d.get(m) != v for m, v in jwk_.items())]
+        if g.get("crv") != jwk_.get("crv"):
+            bad.append("generated")
+        out[name] = bad
+    except Exception as e:
+        out[name] = ["%%s: %%s" %% (type(e).__name__, e)]
+print(json.dumps(out))
+'''
+
+
+def run_fresh(order: str) -> dict:
+    """A fresh interpreter imports the modules as given; one key of every type / curve goes through import (JWK, registry, PEM, key
+    set), export and generation."""
+    import subprocess
+    import sys as _sys
+    from harness.core import REPO
+    keys = {}
+    for name, ref in (("P-256", gk.ec_from_d("P-256", 0xA5A5A5A51234567)), ("P-521", gk.ec_from_d("P-521", 0x1234567890ABCDEF1)), ("secp256k1", gk.ec_from_d("secp256k1", 0xFEDCBA987654321)),
+                      ("Ed448", gk.okp_from_seed("Ed448", bytes(range(57)))), ("X25519", gk.okp_from_seed("X25519", bytes(range(32)))), ("oct", {"kty": "oct", "k": bytes(range(20))})):
+        keys[name] = [ref["kty"], rk.export_jwk(ref), gpem.to_pem(ref, True).decode() if ref["kty"] != "oct" else None]
+    r = subprocess.run([_sys.executable, "-c", FRESH_SCRIPT % FRESH_IMPORTS[order], REPO, json.dumps(keys)], capture_output=True, text=True, timeout=300)
+    if r.returncode != 0:
+        return {f"C11:fresh-interpreter-fails:{order}": r.stderr[-300:]}
+    out = json.loads(r.stdout.strip().splitlines()[-1])
+    return {f"C11:key-handling-depends-on-imports:{name}": f"after `{FRESH_IMPORTS[order]}` a {name} key does not round-trip: {bad}" for name, bad in out.items() if bad}
+
+
 def shards(tier):
-    return [(f"r{i:02d}", {"part": "rt"}) for i in range(10)] + [(f"m{i}", {"part": "mal"}) for i in range(6)]
+    return [(f"r{i:02d}", {"part": "rt", "i": i}) for i in range(10)] + [(f"m{i}", {"part": "mal"}) for i in range(6)]
 
 
 def run_shard(ctx, spec):
     from gens.jose import setup_joserfc
     setup_joserfc()
     MAX_RSA[0] = 3072 if ctx.tier == "quick" else 4096
+    if spec["part"] == "rt" and spec.get("i", 99) < len(FRESH_IMPORTS):
+        order = sorted(FRESH_IMPORTS)[spec["i"]]
+        ctx.case(("fresh", order), cls="fresh-interpreter")
+        for k, w in run_fresh(order).items():
+            ctx.finding(k, w, {"part": "fresh", "order": order})
 
     def body(c):
         f = run_case(c)
@@ -476,5 +526,7 @@ def run_shard(ctx, spec):
 def replay(rec) -> dict:
     from gens.jose import setup_joserfc
     setup_joserfc()
+    if rec.get("part") == "fresh":
+        return run_fresh(rec["order"])
     f = run_case(rec)
     return {k: v for k, v in f.items() if not k.startswith("_")}
